@@ -5,7 +5,7 @@ CONSTANTS
   MKeyAtoms = {}
   Enabled <- EnabledA
 VIEW View
-CONSTRAINT KeyLeavesSet
+CONSTRAINT Expand
 INVARIANT TypeOK
 PROPERTY SetGetFrame
 PROPERTY DeleteExact
